@@ -56,6 +56,14 @@ struct simcore_replayer
 
 	void fail(std::string sig, std::string msg) { res.fail(int(pc), std::move(sig), std::move(msg)); }
 
+	// when the spec expects a timer wait to complete next, a deviation is a
+	// timer matter (C03), not a run-loop one
+	std::string exp_kind() const
+	{
+		if (pc < exp.size() && gets(*exp[pc], "a") == "Exec" && gets(*exp[pc], "k") == "wait") return "/wait";
+		return "";
+	}
+
 	void observe_clock(char const* where)
 	{
 		std::int64_t n = now_ns();
@@ -184,7 +192,7 @@ struct simcore_replayer
 			{ fail("clock.backwards", "jump moved the clock from " + std::to_string(last_now) + " to " + std::to_string(n)); last_now = n; return; }
 			if (n == last_now) return;
 			last_now = n;
-			if (cur_a() != "Jump") { fail("jump.unexpected", "clock jump/timer round but spec expects " + cur_a()); return; }
+			if (cur_a() != "Jump") { fail("jump.unexpected" + exp_kind(), "clock jump/timer round but spec expects " + cur_a()); return; }
 			if (geti(*exp[pc], "now") * scale != n)
 			{
 				fail("jump.now", "clock is " + std::to_string(n) + " ns after the jump, spec expects "
@@ -242,7 +250,7 @@ struct simcore_replayer
 				}
 				if (!res.ok) break;
 				if (cur_a() != "End")
-				{ fail("end.early", "run() returned although the spec expects " + cur_a() + " next"); break; }
+				{ fail("end.early" + exp_kind(), "run() returned although the spec expects " + cur_a() + " next"); break; }
 				++pc;
 				++runs_done;
 				continue;
